@@ -212,6 +212,8 @@ static void run_case(char *line)
 		if (dup2(inpipe[0], 0) < 0 || dup2(outfd, 1) < 0 || dup2(errfd, 2) < 0) _exit(8);
 		close(inpipe[0]); close(outfd); close(errfd);
 		if (home >= 0) close(home);
+		/* marker for a system-call trace (strace): everything after it is the tool's */
+		(void) access("/.verif-tool-starts-here", F_OK);
 		rc = lha_main(argc, argv);
 		exit(rc);
 	}
